@@ -141,6 +141,40 @@ def run_scratch(ids, checks=None):
     sh(["git", "-C", VERIF, "checkout", "--", "evidence"])
 
 
+def run_benign(ids):
+    """Behaviour-preserving changes: every check must stay silent (exit 0).  Scratch worktree + VERIF_REPO."""
+    wt = "/tmp/seeded-run-wt"
+    head = sh(["git", "-C", REPO, "rev-parse", "HEAD"])[1].strip()
+    allp = ["C03", "C04", "C05", "C08", "C12", "C17", "C18", "C19"]
+    for i in ids:
+        d = os.path.join(SEEDED, i)
+        sh(["git", "-C", REPO, "worktree", "remove", "--force", wt])
+        shutil.rmtree(wt, ignore_errors=True)
+        sh(["git", "-C", REPO, "worktree", "add", "--detach", wt, head])
+        res = {}
+        try:
+            rc, out = sh(["git", "apply", os.path.join(d, "patch.diff")], cwd=wt)
+            if rc != 0:
+                print(i, "patch does not apply:", out[-300:])
+                continue
+            env = dict(os.environ, VERIF_REPO=wt)
+            for p in allp:
+                rc, out = sh([os.path.join(VERIF, "check"), p, "quick"], cwd=VERIF, timeout=3600, env=env)
+                detail = [l for l in out.splitlines() if l.startswith("violation:") or l.startswith("HARNESS-ERROR") or l.startswith("unreproducible")]
+                for v in [l for l in out.splitlines() if l.startswith("VIOLATION")]:
+                    path = v.split("replay=")[1].strip()
+                    if os.path.exists(path):
+                        shutil.copy(path, os.path.join(d, "false-alarm-%s.json" % p))
+                        os.unlink(path)
+                res[p] = dict(exit=rc, detail=detail[:3])
+                print(i, p, "exit", rc, "silent" if rc == 0 else ("ALARM" if rc == 1 else "HARNESS-ERROR"), (detail[:1] or [""])[0][:220])
+        finally:
+            sh(["git", "-C", REPO, "worktree", "remove", "--force", wt])
+            shutil.rmtree(wt, ignore_errors=True)
+        json.dump(dict(at=time.strftime("%Y-%m-%d %H:%M:%S"), benign_checks=res, all_silent=all(r["exit"] == 0 for r in res.values())), open(os.path.join(d, "result.json"), "w"), indent=1)
+    sh(["git", "-C", VERIF, "checkout", "--", "evidence"])
+
+
 def run(ids, checks=None):
     if repo_clean():
         print("refusing: /repo has local changes:", repo_clean())
@@ -192,6 +226,8 @@ def table(update_design=False):
         if not os.path.exists(os.path.join(d, "meta.json")):
             continue
         meta = json.load(open(os.path.join(d, "meta.json")))
+        if "property" not in meta:
+            continue
         res = json.load(open(os.path.join(d, "result.json"))) if os.path.exists(os.path.join(d, "result.json")) else {"checks": {}}
         caught = [p for p, r in res["checks"].items() if r.get("caught")]
         silent = [p for p, r in res["checks"].items() if not r.get("caught")]
@@ -254,10 +290,14 @@ if __name__ == "__main__":
                 ids.append(a[k])
                 k += 1
         run_scratch(ids, checks)
+    elif a[0] == "benign":
+        run_benign(a[1:])
     elif a[0] == "runall":
         for d in sorted(glob.glob(os.path.join(SEEDED, "*"))):
             if os.path.exists(os.path.join(d, "meta.json")):
                 meta = json.load(open(os.path.join(d, "meta.json")))
+                if "property" not in meta:
+                    continue  # behaviour-preserving change: see `benign`
                 run([os.path.basename(d)], meta.get("checks_to_run") or [meta["property"]])
     elif a[0] == "table":
         table("--update-design" in a)
